@@ -297,3 +297,81 @@ func init() {
 		}
 	}
 }
+
+// scope.depblock (C08, C19, C11): the parser's dependency collector threads a
+// set of local names (a map[string]bool parameter) through its statement
+// walker so that a reference to a local is not mistaken for a reference to a
+// module-scope declaration. WGSL names are block scoped: a function that
+// receives a *BlockStmt together with such a set and walks the block's
+// statements must hand the statements a set of its OWN (a map made in that
+// function), not the parameter - otherwise a name declared inside the block
+// keeps hiding the module-scope name after the block has ended, the reference
+// is not recorded, and acceptance depends on declaration order.
+func (c *Ctx) runDepBlockScope(r *Report, rule string) {
+	n := 0
+	for _, fn := range c.allFuncs() {
+		if fn.Pkg.Rel != parserRel || fn.Decl.Type.Params == nil {
+			continue
+		}
+		info := fn.Pkg.Info
+		var setParam, blockParam types.Object
+		for _, fl := range fn.Decl.Type.Params.List {
+			for _, nm := range fl.Names {
+				o := info.Defs[nm]
+				if o == nil {
+					continue
+				}
+				if mt, ok := o.Type().Underlying().(*types.Map); ok {
+					if kb, ok := mt.Key().Underlying().(*types.Basic); ok && kb.Kind() == types.String {
+						if vb, ok := mt.Elem().Underlying().(*types.Basic); ok && vb.Kind() == types.Bool {
+							setParam = o
+						}
+					}
+				}
+				if p, ok := o.Type().(*types.Pointer); ok && namedName(p.Elem()) == "BlockStmt" {
+					blockParam = o
+				}
+			}
+		}
+		if setParam == nil || blockParam == nil {
+			continue
+		}
+		// calls inside a range over <block>.Statements
+		ast.Inspect(fn.Decl.Body, func(m ast.Node) bool {
+			rs, ok := m.(*ast.RangeStmt)
+			if !ok {
+				return true
+			}
+			se, ok := ast.Unparen(rs.X).(*ast.SelectorExpr)
+			if !ok || se.Sel.Name != "Statements" {
+				return true
+			}
+			if id, ok := ast.Unparen(se.X).(*ast.Ident); !ok || info.Uses[id] != blockParam {
+				return true
+			}
+			ast.Inspect(rs.Body, func(k ast.Node) bool {
+				call, ok := k.(*ast.CallExpr)
+				if !ok {
+					return true
+				}
+				for _, a := range call.Args {
+					tv, ok := info.Types[a]
+					if !ok || !types.Identical(tv.Type, setParam.Type()) {
+						continue
+					}
+					n++
+					cons := fn.id() + ":" + calleeDesc(info, call)
+					id, isID := ast.Unparen(a).(*ast.Ident)
+					if isID && info.Uses[id] == setParam {
+						r.viol(rule, cons, c.pos(call.Pos()), fn.id()+" walks the statements of a block with the caller's own set of local names ("+id.Name+"): declarations inside the block stay in the set after the block ends and hide module-scope names of the same name in the rest of the function")
+					} else {
+						r.ok(rule, cons, c.pos(call.Pos()), "")
+					}
+				}
+				return true
+			})
+			return true
+		})
+	}
+	r.inst("scope.depblock", n)
+}
